@@ -126,6 +126,10 @@ pub struct Step {
     /// protocol; the decoder has room for exactly these two headers)
     #[serde(default, skip_serializing_if = "is_zero")]
     pub hdr: u8,
+    /// the request id goes over the wire as a JSON string (`"id": "7"`), which JSON-RPC / LSP allow
+    /// (`integer | string`) and some clients do
+    #[serde(default, skip_serializing_if = "is_false")]
+    pub sid: bool,
 }
 
 fn is_zero(b: &u8) -> bool {
@@ -138,10 +142,10 @@ fn is_false(b: &bool) -> bool {
 
 impl Step {
     pub fn new(op: ClientOp) -> Self {
-        Self { op, wait: false, hdr: 0 }
+        Self { op, wait: false, hdr: 0, sid: false }
     }
     pub fn waiting(op: ClientOp) -> Self {
-        Self { op, wait: true, hdr: 0 }
+        Self { op, wait: true, hdr: 0, sid: false }
     }
 }
 
